@@ -293,12 +293,16 @@ pub fn strategy() -> BoxedStrategy<Case> {
 pub struct EosBody {
     inner: ScriptBody,
     left: usize,
+    /// DATA bytes still to come: an accurate body also reports an exact `size_hint` (as a body with a known
+    /// length does), which says nothing about trailers
+    data_left: u64,
     accurate: bool,
 }
 impl EosBody {
     fn new(steps: Vec<BodyStep>, accurate: bool) -> Self {
         let left = steps.iter().filter(|s| !matches!(s, BodyStep::Pending)).count();
-        EosBody { inner: ScriptBody::new(steps), left, accurate }
+        let data_left = steps.iter().map(|s| if let BodyStep::Data(d) = s { d.len() as u64 } else { 0 }).sum();
+        EosBody { inner: ScriptBody::new(steps), left, data_left, accurate }
     }
 }
 impl Body for EosBody {
@@ -306,13 +310,25 @@ impl Body for EosBody {
     type Error = tonic::Status;
     fn poll_frame(mut self: Pin<&mut Self>, cx: &mut Context<'_>) -> Poll<Option<Result<Frame<Bytes>, tonic::Status>>> {
         let r = Pin::new(&mut self.inner).poll_frame(cx);
-        if let Poll::Ready(Some(_)) = &r {
+        if let Poll::Ready(Some(f)) = &r {
             self.left = self.left.saturating_sub(1);
+            if let Ok(f) = f {
+                if let Some(d) = f.data_ref() {
+                    self.data_left = self.data_left.saturating_sub(d.len() as u64);
+                }
+            }
         }
         r
     }
     fn is_end_stream(&self) -> bool {
         self.accurate && self.left == 0
+    }
+    fn size_hint(&self) -> http_body::SizeHint {
+        if self.accurate {
+            http_body::SizeHint::with_exact(self.data_left)
+        } else {
+            http_body::SizeHint::default()
+        }
     }
 }
 
